@@ -34,7 +34,10 @@ def events(ctx):
         yield record("cfdphdr.rt", {"h": hdr(rng.choice([1, 2, 4, 8]), rng.choice([1, 2, 4, 8]), dl), "sfx": []})
     for _ in range(ctx.q(15000, 600000)):
         sfx = [] if rng.random() < 0.7 else [rng.randrange(256) for _ in range(rng.randrange(1, 12))]
-        yield record("cfdphdr.rt", {"h": hdr(rng.choice([1, 2, 4, 8]), rng.choice([1, 2, 4, 8])), "sfx": sfx})
+        e = {"h": hdr(rng.choice([1, 2, 4, 8]), rng.choice([1, 2, 4, 8])), "sfx": sfx}
+        if rng.random() < 0.25:
+            e["via"] = "inplace"
+        yield record("cfdphdr.rt", e)
     for _ in range(300):
         h = hdr(rng.choice([1, 2, 4, 8]), rng.choice([1, 2, 4, 8]))
         kind = rng.randrange(3)
